@@ -62,6 +62,7 @@ def dotted(path):
 class World:
     def __init__(self, cinco, desc):
         self.cinco = cinco
+        self.desc = desc
         self.schema = cfgadapter.build_schema_topdown(cinco, desc)
         self.cfg = self.schema()
 
@@ -105,16 +106,40 @@ class World:
                 ignore = None if not ign else (ign[0] if len(ign) == 1 else ign)
                 cinco.cmdline_args_override(self.cfg, ns, ignore=ignore)
             elif op == "Describe":
-                res.update(self.describe())
+                res.update(self.describe(ev.get("mode", "topdown")))
             else:
                 raise RuntimeError(op)
         except Exception as exc:  # noqa
             res["out"] = cfgadapter.fieldmap.exc_class(exc)
         return res
 
-    def describe(self):
+    def mounted_schema(self):
+        """The same schema built bottom-up: nested schemas stand alone first, the reference
+        paths of their fields are read, then they are attached to their parents."""
+        cinco = self.cinco
+
+        def build(d):
+            s = cinco.Schema()
+            for key, f in codec.seq(d["fields"]):
+                if f["kind"] == "schema":
+                    sub = build(f)
+                    for _p, _s, fld in cinco.get_all_fields(sub):
+                        cinco.item_ref_path(fld)
+                    setattr(s, key, sub)
+                elif f["kind"] == "virtual":
+                    setattr(s, key, cinco.VirtualField(lambda cfg: 42))
+                else:
+                    setattr(s, key, cfgadapter.fieldmap.build(cinco, f))
+            return s
+
+        return build(self.desc)
+
+    def describe(self, mode="topdown"):
         cinco = self.cinco
         schema, cfg = self.schema, self.cfg
+        if mode == "mounted":
+            schema = self.mounted_schema()
+            cfg = schema()
         fields = cinco.get_all_fields(schema)
         problems = []
         paths = []
